@@ -176,8 +176,8 @@ func patchConsts(p *bcl.Prog, placeholders []any, vals []any) {
 }
 
 var c09StrLens = [][]int{
-	{0, 1, 94, 95, 96, 239, 240, 241, 242},
-	{0, 1, 94, 95, 96, 239, 240, 241, 242, 2286, 2287, 2288, 2289, 4094, 4095, 4096, 4097, 4098},
+	{0, 1, 94, 95, 96, 239, 240, 241, 242, 67823, 67824},
+	{0, 1, 94, 95, 96, 239, 240, 241, 242, 2286, 2287, 2288, 2289, 4094, 4095, 4096, 4097, 4098, 67822, 67823, 67824, 67825},
 }
 
 // C09_Strings: string constants with symbolic contents at lengths crossing the
@@ -190,7 +190,13 @@ func C09_Strings() {
 	src := "var s = \"" + ph + "\"\nprint s\ndef blk \"nm\" { f = s; n = 12345; x = 2.5 }\nbind blk -> struct\nbind blk -> slice\nprint 1/0\n"
 	p, dis, out, log := c09Parse(src, "prog")
 	_ = dis
-	content := verif.String("content", n)
+	var content string
+	if n > 5000 {
+		// CONCRETE INSTANCE: the 3->4 byte size class boundary
+		content = strings.Repeat("z", n)
+	} else {
+		content = verif.String("content", n)
+	}
 	patchConst(p, ph, content)
 	// disassembly of the patched program (the one Parse printed had the placeholder)
 	verif.Observe("n", n)
@@ -203,7 +209,10 @@ func C09_Strings() {
 // C09_Idents: identifiers (block types, field names) and program names of
 // boundary lengths.
 func C09_Idents() {
-	lens := c09StrLens[verif.Tier()][1:]
+	lens := [][]int{
+		{1, 94, 95, 96, 239, 240, 241, 242},
+		{1, 94, 95, 96, 239, 240, 241, 242, 2286, 2287, 2288, 2289, 4094, 4095, 4096, 4097, 4098},
+	}[verif.Tier()]
 	n := lens[verif.Choice("len", len(lens))]
 	mode := verif.Choice("reader", 3)
 	id := strings.Repeat("k", n)
